@@ -973,4 +973,77 @@ fn main() {
             }
         }
     }
+    // (8) every substitution-enabled grammar position x every reason for (not) substituting (wave 3; measured: the
+    // random families never produced the blank rule at a here-document delimiter, after `(` / `|` of a case item, at
+    // a function body, or a nested blank rule at a redirection operand).  `{L}` = the token that leads into the
+    // position (typed, or the value of a global alias with / without a trailing blank, or the end of a chain
+    // `a='b ' b=<token>`), `{P}` = the probed word (alias `c`, global or not, typed or out of the wrapper `b`),
+    // value of `c` = what the position needs to parse on.
+    let mut positions: Vec<(String, String, String)> = vec![];
+    for op in ["<", ">", ">>", "<>", ">|", "<&", ">&", ">>|", "<<<"] {
+        positions.push(("{L} {P} x".into(), op.into(), "out".into()));
+        positions.push(("x {L} {P} y".into(), op.into(), "out".into()));
+        positions.push(("{ x; } {L} {P}".into(), op.into(), "out".into()));
+    }
+    for op in ["<<", "<<-"] {
+        positions.push(("{L} {P} x\ny\nc\nout\nz".into(), op.into(), "out".into()));
+        positions.push(("x {L} {P}\ny\n\tc\nout\n".into(), op.into(), "out".into()));
+        positions.push(("if x; then y; fi {L} {P}\ny\nc\nout\n".into(), op.into(), "'out'".into()));
+    }
+    for (tpl, lead, val) in [
+        ("v=( {L} {P} )", "x", "y"),
+        ("v=( {L}\n{P} ) x", "x", "y z"),
+        ("f {L} {P} { :; }", "(", ")"),
+        ("f ( {L} {P}", ")", "{ :; }"),
+        ("f ( {L} {P}", ")", "if x; then y; fi"),
+        ("{L} {P} in x; do :; done", "for", "i"),
+        ("for {L} {P} x; do :; done", "i", "in"),
+        ("for {L} {P} :; done", "i", "do"),
+        ("for i in {L} {P}; do :; done", "x", "y"),
+        ("for i in x {L} {P} :; done", ";", "do"),
+        ("for i in x {L} {P} :; done", "\n", "do"),
+        ("{L} {P} in x) ;; esac", "case", "y"),
+        ("case {L} {P} x) ;; esac", "x", "in"),
+        ("case x {L} {P}) ;; esac", "in", "y"),
+        ("case x {L} {P}", "in", "esac"),
+        ("case x in {L} {P}) ;; esac", "(", "y"),
+        ("case x in {L} {P} ;; esac", "y", ")"),
+        ("case x in {L} {P} z) ;; esac", "y", "|"),
+        ("case x in y {L} {P}) ;; esac", "|", "z"),
+        ("case x in y) ;; {L} {P}) ;; esac", "z |", "y"),
+        ("{L} {P}", "x", "y"),
+        ("x {L} {P} z", "y", "z"),
+        ("{L} {P}", "v=1", "y"),
+        ("{L} {P}", "{ x; }", "y"),
+        ("x {L} {P}", "&&", "y"),
+        // after a compound command a word is taken raw, so the whole `… } >` must come out of one value
+        ("{ {L} {P}", "x; } >", "out"),
+        ("{ {L} {P}\ny\nc\nout\n", "x; } <<", "out"),
+        ("if {L} {P}\ny\n\tc\n\tout\n", "x; then y; fi <<-", "out"),
+    ] {
+        positions.push((tpl.into(), lead.into(), val.into()));
+    }
+    let e = |name: &str, global: bool, value: &str| Entry { name: name.into(), global, value: value.into() };
+    for (tpl, lead, val) in &positions {
+        let typed = |probe: &str| tpl.replace("{L}", lead).replace("{P}", probe);
+        let via_a = |probe: &str| tpl.replace("{L}", "a").replace("{P}", probe);
+        let lead_b = format!("{lead} ");
+        // typed lead: global / ordinary / self-referring / through a global wrapper
+        out(&[e("c", true, val)], &typed("c"));
+        out(&[e("c", false, val)], &typed("c"));
+        out(&[e("c", true, "c")], &typed("c"));
+        out(&[e("b", true, "c"), e("c", true, val)], &typed("b"));
+        out(&[e("b", true, "c "), e("c", false, val)], &typed("b b"));
+        // lead out of a global alias: with and without the trailing blank, across a line continuation, nested
+        out(&[e("a", true, &lead_b), e("c", false, val)], &via_a("c"));
+        out(&[e("a", true, lead), e("c", false, val)], &via_a("c"));
+        out(&[e("a", true, &lead_b), e("c", false, val)], &via_a("\\\n c"));
+        out(&[e("a", true, &lead_b), e("b", true, "c"), e("c", false, val)], &via_a("b"));
+        out(&[e("a", true, &lead_b), e("b", true, "c"), e("c", false, "c")], &via_a("b"));
+        // the lead is the end of a chain `a='b ' b=<lead>`: the blank that counts is `a`'s
+        out(&[e("a", true, "b "), e("b", true, lead), e("c", false, val)], &via_a("c"));
+        out(&[e("a", false, "b "), e("b", false, lead), e("c", false, val)], &via_a("c"));
+        // the probed word is defined but its alias is being processed (recursion guard at this position)
+        out(&[e("a", true, &lead_b), e("c", false, &format!("{val} c"))], &via_a("c"));
+    }
 }
